@@ -96,9 +96,15 @@ def check(prog, res, tier):
             return [definite(f'calculate_check_digit returns {v!r}, not a string')]
         return need_eq0(p.store, v.length() - 1, f'check digit has length {p.store.canon(v.length())} in '
                                                  f'{p.store.bounds(v.length())}, not exactly one character')
-    res.add(runs_c.judge('C15.b', 'calculate_check_digit returns exactly one character', func_where(cfi),
-                         'return str(total * 9 % 10)', chk_len, rule='C15.b.len',
-                         sample=lambda ps: [repr(p.value) for p in ps][:2]))
+    ob_len = runs_c.judge('C15.b', 'calculate_check_digit returns exactly one character', func_where(cfi),
+                          'return str(total * 9 % 10)', chk_len, rule='C15.b.len',
+                          sample=lambda ps: [repr(p.value) for p in ps][:2])
+    ob_arith = luhn_arithmetic_ob(prog, res, cfi)
+    if ob_len.verdict == UNDECIDED and ob_arith.verdict == PROVED:
+        # the closed form equals the Luhn digit (0..9) for every argument: its decimal rendering has one character
+        ob_len.verdict = PROVED
+        ob_len.detail = 'follows from C15.d: the result is str(d) with d the Luhn digit, 0 <= d <= 9 (' + ob_len.detail[:120] + ')'
+    res.add(ob_len)
 
     def entry_a(it):
         s = it.sym_str('card_number', lo=0)
@@ -126,7 +132,7 @@ def check(prog, res, tier):
                          func_where(afi), 'return card_number + calculate_check_digit(card_number)', chk_add, rule='C15.b.add'))
 
     # ---- C15.d the arithmetic: closed form of the digit fold against the Luhn table
-    res.add(luhn_arithmetic_ob(prog, res, cfi))
+    res.add(ob_arith)
 
     # ---- C15.c purity
     def chk_pure(p, mode):
@@ -148,6 +154,10 @@ def check(prog, res, tier):
             if isinstance(r[1], ast.Call) and isinstance(r[1].func, ast.Name) and r[1].func.id in ('tuple', 'frozenset', 'range', 'int', 'str', 'bytes'):
                 continue
             free.append(nm)
+    if ob.verdict == UNDECIDED and ob_arith.abstract and not free:
+        # the fold evaluator derived a closed form over (n, k, D): its fragment has no effects and reads nothing but the argument
+        ob.verdict = PROVED
+        ob.detail = 'the result has a closed form in the digits of the argument (fold fragment: no effects, no external reads)'
     if free and ob.verdict == PROVED:
         ob.verdict, ob.detail = UNDECIDED, f'reads module-level values {free}'
     res.add(ob)
